@@ -6,7 +6,7 @@ import time
 
 sys.path.insert(0, os.path.dirname(os.path.dirname(os.path.abspath(__file__))))
 from pyvc.driver import run, pmap
-from spec import sets
+from spec import sets, cisco_ref
 
 BASE = 0x0A000000
 
@@ -100,6 +100,15 @@ def check(arg):
             bad("kind", f"result {o.line!r} has no single network")
             return fails, 1
         outc.append(sets.cube_of_prefix(int(o.ipnet.network_address), o.ipnet.prefixlen))
+        # what the result *says* (its text, read independently) is what it is
+        try:
+            toks = o.line.split()
+            toks = toks[1:] if len(toks) > 1 and toks[0].isdigit() and not cisco_ref.is_ip(toks[0]) else toks
+            said = cisco_ref.read_address(toks, 0, platform, None, mask_is_subnet=(cls == "AddressAg" and platform == "ios"))[0]
+            if sets.union_equal(said, [outc[-1]]) is not None:
+                bad("text", f"result renders as {o.line!r}, which does not denote its network {o.ipnet}")
+        except cisco_ref.RefError as ex:
+            bad("text", f"result renders as {o.line!r}, not an address of {platform}: {ex}")
     w = sets.union_equal(inc, outc)
     if w is not None:
         bad("cover", f"covered set changed at address {quad(w)}: result {[o.line for o in res]}")
@@ -144,6 +153,8 @@ def random_lists(seed, count):
     for _ in range(count):
         l = rnd.randint(1, 32)
         a = rnd.getrandbits(32) & (0xFFFFFFFF << (32 - l)) & 0xFFFFFFFF
+        if rnd.random() < 0.15:
+            a = 0 if rnd.random() < 0.5 else (0xFFFFFFFF << (32 - l)) & 0xFFFFFFFF      # the two ends of the address space
         nets = [(a, l)]
         for _ in range(rnd.randint(0, 5)):
             b, m = rnd.choice(nets)
